@@ -66,7 +66,7 @@ fn gen_case(tape: &mut Tape) -> (&'static str, Sources) {
     let single = tape.chance(1, 3);
     let cfg = GenCfg { max_decls: 8, max_modules: if single { 1 } else { 3 }, ..GenCfg::strict() };
     let (mut prog, _) = Gen::new(tape, cfg).program();
-    let class = tape.weighted(&[30, 8, 10, 8, 8, 10, 10, 8, 8]);
+    let class = tape.weighted(&[30, 8, 10, 8, 8, 10, 10, 8, 8, 5]);
     let mut name = "accepted";
     match class {
         5 => {
@@ -119,6 +119,17 @@ fn gen_case(tape: &mut Tape) -> (&'static str, Sources) {
             let st = tape.pick(&["99", "600", "0", "1000"]);
             t.push_str(&format!("res /zz9 on get -> < status = {st} , {{ }} > ;\n"));
             name = "eval-status";
+        }
+        9 => {
+            // An import that names a directory (it exists, but it is not a source file).
+            let names: Vec<String> = s.files.keys().cloned().collect();
+            let f = tape.pick_ref(&names).clone();
+            let depth = f.matches('/').count();
+            let dir = *tape.pick_ref(&["./", "", "../"]);
+            let path = if dir == "../" && depth == 0 { "./".to_owned() } else { dir.to_owned() };
+            let t = s.files.get_mut(&f).unwrap();
+            *t = format!("use \"{path}\" as zd9 ;\n{t}");
+            name = "import-directory";
         }
         8 => {
             let t = s.files.get_mut(&main).unwrap();
